@@ -51,6 +51,15 @@ func checkVariant(sc *bw.Scenario, w *world, cl *closure, res *vresult, out *sim
 	checkDiagDelivery(sc, w, res, out)
 	checkTrace(sc, res, out)
 
+	if res.closedInTask {
+		// which Add calls made it into the bundle depends on who won the lock; only the
+		// absolute clauses (no bundle from a failed build, sanitised, poisoning) are judged
+		if res.bundle != nil && !res.anyErr {
+			checkSanitised(sc, w, cl, res, out)
+		}
+		out.Probe("close-while-adds-in-flight")
+		return
+	}
 	expectErr := len(cl.errs) > 0
 	if faultFree(sc) && !cl.unknown {
 		if expectErr && !res.anyErr && cl.treeErr {
@@ -394,6 +403,14 @@ func comparePkgDir(sc *bw.Scenario, w *world, pi int, pdir string, vi int, out *
 		g, present := got[p]
 		switch f.Kind {
 		case "dir":
+			if model.DirGone(rules, p) {
+				if present {
+					out.Violate("C03", "bundle-excluded-kept", "directory-skeleton", fmt.Sprintf("variant %d: package %d: directory %s is selected by its rules %q with no later '!' rule, yet it is still in the bundle", vi, pi, p, rulesOf(sc, pi)))
+				} else {
+					out.Probe("bundle-dir-removed-by-rules")
+				}
+				continue
+			}
 			if touched(rules, p) {
 				continue
 			}
@@ -401,7 +418,7 @@ func comparePkgDir(sc *bw.Scenario, w *world, pi int, pdir string, vi int, out *
 				out.Violate("C08", "content", "dir-missing", fmt.Sprintf("variant %d: package %d directory %s is missing from the bundle", vi, pi, p))
 			}
 			continue
-		case "fifo":
+		case "fifo", "sock", "dev":
 			continue
 		}
 		ex := model.Excluded(rules, p)
@@ -646,7 +663,7 @@ func checkVersions(sc *bw.Scenario, w *world, cl *closure, res *vresult, out *si
 				ok = true
 			}
 		}
-		if !ok && faultFree(sc) {
+		if !ok {
 			out.Violate("C17", "requested-version", "selection", fmt.Sprintf("variant %d: the registry was asked for %s, which is not the newest allowed version of any request", vi, c.Key))
 		}
 	}
@@ -710,7 +727,7 @@ func checkAcrossVariants(sc *bw.Scenario, w *world, cl *closure, results []*vres
 	}
 	var ref *vresult
 	for _, res := range results {
-		if res.bundle == nil || res.anyErr {
+		if res.bundle == nil || res.anyErr || res.closedInTask {
 			continue
 		}
 		// coalescing: two fetched packages share a directory iff their filtered file path->content maps are equal
@@ -761,7 +778,7 @@ func checkAcrossVariants(sc *bw.Scenario, w *world, cl *closure, results []*vres
 	}
 	// a variant that fails where another succeeds
 	for _, res := range results {
-		if ref != nil && (res.bundle == nil || res.anyErr) && !res.deadlock {
+		if ref != nil && (res.bundle == nil || res.anyErr) && !res.deadlock && !res.closedInTask {
 			out.Violate("C13", "variant-fails", variantClass(sc, ref, res), fmt.Sprintf("variant %d succeeds but variant %d of the same world and Add set fails", ref.r.vi, res.r.vi))
 		}
 	}
